@@ -198,3 +198,31 @@ func HarnessC10SecondRun() {
 	vrt.Assert(<-runDone == nil, "the first Run is undisturbed and returns nil")
 	vrt.Assert(sub.subscribes == 1, "the handler is subscribed once")
 }
+
+// HarnessC10LateRunHandlers: RunHandlers is called once more (nothing new to start) while the last handler is being
+// stopped and the router closes itself: the call returns, Run returns nil.
+func HarnessC10LateRunHandlers() {
+	r, _ := NewRouter(RouterConfig{}, watermill.NopLogger{})
+	sub := &countingSubscriber{}
+	h := r.AddNoPublisherHandler("A", "ta", sub, func(m *Message) error { return nil })
+	runDone := make(chan error, 1)
+	ctx, cancel := context.WithCancel(context.Background())
+	defer cancel()
+	go func() {
+		vrt.MustFinish()
+		runDone <- r.Run(ctx)
+	}()
+	<-r.Running()
+	rhDone := make(chan struct{})
+	go func() {
+		vrt.MustFinish()
+		_ = r.RunHandlers(ctx) // nil, or an error saying that the router is closing: it must return
+		close(rhDone)
+	}()
+	h.Stop()
+	err := <-runDone
+	vrt.Assert(err == nil, "when the last handler ends the router closes itself and Run returns nil")
+	<-rhDone
+	vrt.Assert(sub.subscribes == 1, "RunHandlers starts each handler exactly once however often it is called")
+	vrt.Observe("closed", r.IsClosed())
+}
